@@ -14,11 +14,13 @@ _installed = {}
 
 
 def repo_check():
+    import os
     import bardolph
     path = bardolph.__file__
-    if not path.startswith('/repo/'):
-        raise RuntimeError('bardolph is imported from {} (expected /repo)'
-                           .format(path))
+    root = os.environ.get('VERIF_REPO') or '/repo'
+    if not path.startswith(root.rstrip('/') + '/'):
+        raise RuntimeError('bardolph is imported from {} (expected {})'
+                           .format(path, root))
     return path
 
 
